@@ -145,11 +145,13 @@ func (s *ftpService) Handle(ctx context.Context, conn net.Conn) error {
 		}
 	}()
 
-	ftpConn.Serve()
+	// stop the event pump once the connection is finished, also when a command handler panics
+	defer func() {
+		close(recv)
+		<-done
+	}()
 
-	// stop the event pump once the connection is finished
-	close(recv)
-	<-done
+	ftpConn.Serve()
 
 	return nil
 }
